@@ -44,8 +44,8 @@ PROFILES = {
     "C01": {"w": _p(op1=22, opx=4, struct=7, measure=1.5, povm=0.7, kraus=2), "clients": (1, 2), "fault_rate": 0.0},
     "C02": {"w": _p(struct=18, trace_out=7, mk_ce=3, op1=6, opx=5, measure=1, povm=0.5), "clients": (1, 2), "fault_rate": 0.0},
     "C03": {"w": _p(opx=22, op1=6, struct=6, mk_ce=2, measure=1, povm=0.5), "clients": (1, 1), "fault_rate": 0.0, "min_envs": 2},
-    "C04": {"w": _p(measure=14, op1=10, opx=8, struct=5, povm=1), "clients": (1, 2), "fault_rate": 0.0},
-    "C05": {"w": _p(measure=14, op1=9, opx=8, struct=5, povm=1, fault=2), "clients": (1, 2), "fault_rate": 0.12, "faults": ["use_destroyed"]},
+    "C04": {"scen_bias": ("envsep", 0.1), "w": _p(measure=14, op1=10, opx=8, struct=5, povm=1), "clients": (1, 2), "fault_rate": 0.0},
+    "C05": {"scen_bias": ("envsep", 0.1), "w": _p(measure=14, op1=9, opx=8, struct=5, povm=1, fault=2), "clients": (1, 2), "fault_rate": 0.12, "faults": ["use_destroyed"]},
     "C06": {"scen_bias": ("paulinoise", 0.12), "w": _p(kraus=16, op1=8, opx=7, struct=5, measure=1), "clients": (1, 1), "fault_rate": 0.0},
     "C07": {"scen_bias": ("recombine", 0.1), "w": _p(), "clients": (1, 2), "fault_rate": 0.0, "nonunitary": 0.3},
     "C08": {"scen_bias": ("weaknoise", 0.12), "wide_rate": 0.0, "w": _p(struct=14, config=3, kraus=5, op1=10, opx=6), "clients": (1, 1), "fault_rate": 0.0, "struct_bias": "level", "no_estimator": True},
@@ -398,6 +398,21 @@ class Gen:
             parts = [{"family": "depol", "p": round(rng.uniform(0.05, 0.9), 4)} if n_.endswith(".p") else {"family": rng.choice(["perm", "ampdamp", "jump"]), "seed": 1, "g": 0.3} for n_ in on]
             ent = rng.choice(["env", "ce"])
             q.append({"do": "kraus", "entry": ent, "env": a["name"], "ce": ce["name"], "ch": {"family": "prod", "parts": parts}, "on": on, "arr": rng.choice(["mixed", "npmixed"]), "client": c})
+        elif scen == "envsep":
+            # one photon whose Fock and polarization parts are correlated inside its own (combined)
+            # envelope, at vector or matrix level, then ONE member measured on its own
+            a = self._new_env(c, fock=rng.choice([0, 1, 1, 2]))
+            a["dims"] = a["fock"] + rng.choice([1, 2])
+            q += [a]
+            af, ap = a["name"] + ".f", a["name"] + ".p"
+            on = [af, ap]
+            rng.shuffle(on)
+            fam = rng.choice([{"family": "unitary", "seed": rng.randint(1, 40)}, {"family": "dilation", "n": 2, "seed": rng.randint(1, 40)}])
+            q.append({"do": "kraus", "entry": "env", "env": a["name"], "ch": fam, "on": on, "client": c})
+            if rng.random() < 0.3:
+                q.append({"do": "env.expand", "env": a["name"], "client": c})
+            tgt = rng.choice([af, ap])
+            q.append({"do": "measure", "entry": rng.choice(["env", "state"]), "env": a["name"], "on": [tgt], "sep": True, "destr": rng.random() < 0.5, "style": rng.choice(["kw", "min"]), "client": c})
         elif scen == "weaknoise":
             # weak noise on one photon of an entangled pure state: purity deficits around the
             # library's "is it pure" tolerances
@@ -1236,4 +1251,4 @@ class Gen:
         return None
 
 
-SCENARIOS = ["bell", "ghz", "bs2", "mz", "envcomb", "two_ps", "merged", "mixed_custom", "cancel", "weaknoise", "recombine", "equalmeasure", "lopsided", "paulinoise"]
+SCENARIOS = ["bell", "ghz", "bs2", "mz", "envcomb", "two_ps", "merged", "mixed_custom", "cancel", "weaknoise", "recombine", "equalmeasure", "lopsided", "paulinoise", "envsep"]
